@@ -125,7 +125,7 @@ claimed.update({
 })
 claimed.update({
  "C17": dict(
-   text="Stateless model checking of the implementation under a controlled scheduler: real goroutines run one at a time, scheduling points at every sync operation of pkg/reader, pkg/writer, pkg/formats and pkg/storage (import-rewrite overlay generated from the current sources; the shim performs the real operation), depth-first enumeration of every schedule of all 136 unordered pairs of a 16-call alphabet (register/unregister/get on shared and private keys for both registries, constructors with and without options, JSON and tag-value detection, parse and write of private documents) with <=2 preemptions; thorough adds 216 three-thread registry scenarios with unbounded preemptions and 256 two-calls-per-thread scenarios with <=3 preemptions (9.6 million schedules). The binary is race-instrumented with the scheduler's hand-offs hidden from ThreadSanitizer, so any pair of accesses not ordered by the program's own synchronisation is reported in the same serialised, deterministic executions; deadlock = no enabled thread; result vectors must equal those of some sequential order run on the real code; one schedule per scenario is replayed to prove determinism; race reports are confirmed by replaying the schedule in 4 fresh processes.",
+   text="Stateless model checking of the implementation under a controlled scheduler: real goroutines run one at a time, scheduling points at every sync operation of pkg/reader, pkg/writer, pkg/formats, pkg/storage and pkg/sbom (import-rewrite overlay generated from the current sources; the shim performs the real operation), depth-first enumeration of every schedule of all 136 unordered pairs of a 16-call alphabet (register/unregister/get on shared and private keys for both registries, constructors with and without options, JSON and tag-value detection, parse and write of private documents) with <=2 preemptions; thorough adds 216 three-thread registry scenarios with unbounded preemptions and 256 two-calls-per-thread scenarios with <=3 preemptions (9.6 million schedules). The binary is race-instrumented with the scheduler's hand-offs hidden from ThreadSanitizer, so any pair of accesses not ordered by the program's own synchronisation is reported in the same serialised, deterministic executions; deadlock = no enabled thread; result vectors must equal those of some sequential order run on the real code; one schedule per scenario is replayed to prove determinism; race reports are confirmed by replaying the schedule in 4 fresh processes.",
    note="Trusted: the vsync shim (each operation = scheduling point + the real sync operation), ThreadSanitizer's happens-before analysis, sequentially consistent interleavings at synchronisation granularity. Falls back to thread-granularity schedules with seam_sync:false if the overlay cannot be applied.",
    technique="stateless model checking: controlled scheduler + preemption-bounded DFS over real goroutines, TSan with hidden hand-offs, sequential-order oracle",
    design="5/C17"),
